@@ -7,7 +7,7 @@ from engine import Op, set_mode
 
 PROP = "C12"
 QUICK_BOOST = 2
-LEAN_MODULES = ["IsoDT.Props.C12", "IsoDT.Props.C12b", "IsoDT.Props.C12mm"]
+LEAN_MODULES = ["IsoDT.Props.C12", "IsoDT.Props.C12b", "IsoDT.Props.C12mm", "IsoDT.Props.C12q"]
 RULE = ("recurrences over the 3 notations x bounded (n = 1, 2, ...) / unbounded x anchors in any representation "
         "and zone (incl. 24:00) x exact intervals of many sizes and nominal (month/year, alone or mixed) "
         "intervals, first K points; non-trivial when the series crosses a month end, year boundary or uses a "
@@ -355,4 +355,6 @@ def ops():
     import common
     common.foreign_configurations()
     import recmm
-    return [Iter(), IterText(), IterFrac(), Notations(), Mk(), recmm.RecMMOp(PROP, "mmiter", ["mmrmk", "mmriter", "mmriter", "mmriter"], 500)]
+    import recqops
+    return [Iter(), IterText(), IterFrac(), Notations(), Mk(), recmm.RecMMOp(PROP, "mmiter", ["mmrmk", "mmriter", "mmriter", "mmriter"], 500),
+            recqops.RecQOp(PROP, "riterq", ["riterq"], 400)]
